@@ -180,7 +180,8 @@ Section Disk.
 
   (* the seventh buffer is only rewritten when there are gaps; what is left there from earlier rounds
      is a compressed block too (or nothing), in every reachable state, asleep or awake *)
-  Definition small6 (a : alloc) : Prop := len_ok (nth 6 (hdata a) None).
+  Lemma len_ok_small : forall d, len_ok d <-> buf_small d.
+  Proof. intros d. unfold len_ok, buf_small, buf_bytes. reflexivity. Qed.
 
   Lemma malloc_hdata : forall ch a a' id, malloc ch a = Ok (a', id) -> hdata a' = hdata a.
   Proof.
@@ -210,7 +211,7 @@ Section Disk.
     destruct (Z.of_nat (length (slist a)) <? thr a)%Z; [inversion H; subst; exact H6|].
     destruct (slist a) as [|c s'].
     - inversion H. exact H6.
-    - unfold small6, len_ok. destruct (gaps a) as [[|g0 g']|]; inversion H; unfold deinterleave; cbn [hdata map app nth buf_bytes];
+    - unfold small6, buf_small. destruct (gaps a) as [[|g0 g']|]; inversion H; unfold deinterleave; cbn [hdata map app nth];
         try exact H6; apply lz4_small.
   Qed.
 
@@ -223,14 +224,14 @@ Section Disk.
     destruct (all_some (map nonempty_buf (firstn 6 (hdata a)))); [|discriminate].
     destruct (0 <? hglen a)%Z.
     - destruct (nonempty_buf (nth 6 (hdata a) None)); [|discriminate]. inversion H.
-      unfold small6, len_ok. cbn. lia.
+      unfold small6, buf_small. cbn. lia.
     - inversion H. unfold small6. cbn [hdata repeat app nth]. exact H6.
   Qed.
 
   Lemma reachable_small6 : forall w, reachable compress decompress w -> small6 (wa w).
   Proof.
-    intros w H. induction H as [|w x _ IH|w c _ IH Hc].
-    - unfold small6, len_ok. cbn. lia.
+    intros w H. induction H as [|w x _ IH|w c _ IH Hc|w a' _ IH _ _ _ _ _ H6].
+    - unfold small6, buf_small. cbn. lia.
     - destruct x as [o ch|o id|o id c|t| |]; cbn [step].
       + destruct (malloc ch (wa w)) as [[a' id]| |] eqn:E; try exact IH. cbn [wa]. unfold small6.
         rewrite (malloc_hdata _ _ _ _ E). exact IH.
@@ -244,7 +245,8 @@ Section Disk.
       + destruct (boot decompress (wa w)) as [a'| |] eqn:E; try exact IH. cbn [wa].
         eapply boot_small6; eassumption.
     - unfold clone in Hc. destruct (storage (wa w)); [|discriminate]. inversion Hc.
-      unfold small6, len_ok. cbn. lia.
+      unfold small6, buf_small. cbn. lia.
+    - assumption.
   Qed.
 
   Theorem disk_roundtrip : forall w, reachable compress decompress w -> storage (wa w) <> None ->
@@ -259,7 +261,8 @@ Section Disk.
          exists h2 a', deserialize ax (Some bytes) = Ok (h2, None) /\
            boot decompress h2 = Ok a' /\
            storage a' = storage (wa w) /\ gaps a' = gaps (wa w) /\ thr a' = thr ax /\
-           hslen a' = 0%Z /\ hglen a' = 0%Z).
+           hslen a' = 0%Z /\ hglen a' = 0%Z /\
+           reachable compress decompress (mkworld a' (owned w))).
   Proof.
     intros w Hr Hawake Ht Hpos.
     destruct (reachable_Inv compress decompress lz4_ok w Hr) as [Haw|(Hnone & _)]; [|congruence].
@@ -280,7 +283,7 @@ Section Disk.
         + apply Forall_forall. intros d Hd. apply in_map_iff in Hd. destruct Hd as (b & <- & _).
           unfold len_ok. cbn [buf_bytes]. apply lz4_small.
         + constructor; [|constructor]. unfold len_ok. destruct g.
-          * exact (reachable_small6 w Hr).
+          * apply len_ok_small. exact (reachable_small6 w Hr).
           * cbn [buf_bytes]. apply lz4_small. }
     destruct (file_roundtrip h eq_refl Hfile) as (h1 & bytes & Hser & Hs1 & Hd1 & Hsl1 & Hgl1 & _ & Hdes).
     exists h, h1, bytes. split; [exact Hh|]. split; [reflexivity|]. split; [exact Hser|]. split; [|split].
@@ -298,8 +301,18 @@ Section Disk.
                   (Some (buf_bytes (match g with [] => nth 6 (hdata (wa w)) None | _ :: _ => Some (compress g) end)))
                   (hglen h) Hne (ai_sorted _ _ _ HA)) as (hd & Hb).
       { unfold h, hib_state. cbn [hglen]. destruct g; [exact Hhg|split; reflexivity]. }
-      eexists. split; [exact Hdes|]. split.
-      + unfold h at 1, hib_state at 1. cbn [hslen]. exact Hb.
-      + cbn [storage gaps thr hslen hglen]. rewrite Hs, Hg. repeat split; reflexivity.
+      assert (Hb' : boot decompress (mkalloc (thr ax) None (gaps ax)
+                       (map (fun b => Some (compress b)) (deinterleave s) ++
+                        [Some (buf_bytes (match g with [] => nth 6 (hdata (wa w)) None | _ :: _ => Some (compress g) end))])
+                       (hslen h) (hglen h)) = Ok (mkalloc (thr ax) (Some s) (Some g) hd 0 0)).
+      { unfold h at 1, hib_state at 1. cbn [hslen]. exact Hb. }
+      eexists. split; [exact Hdes|]. split; [exact Hb'|].
+      cbn [storage gaps thr hslen hglen]. rewrite Hs, Hg. repeat (split; [reflexivity|]).
+      apply r_same; cbn [wa storage gaps hslen hglen]; try assumption; try congruence.
+      eapply boot_small6; [|exact Hb'].
+      unfold small6. cbn [hdata]. unfold deinterleave. cbn [map app nth]. apply len_ok_small.
+      destruct Hfile as (_ & _ & _ & Hall). unfold h, hib_state in Hall. cbn [hdata] in Hall.
+      apply Forall_app in Hall. destruct Hall as [_ Hlast]. inversion Hlast as [|? ? Hl _]; subst.
+      unfold len_ok in *. cbn [buf_bytes] in *. exact Hl.
   Qed.
 End Disk.
